@@ -5,6 +5,7 @@ ROOT = os.path.dirname(os.path.dirname(os.path.abspath(__file__)))
 TECH = "solver-based bounded symbolic execution of the real Go SSA (gosym: go/ssa -> SMT-LIB2 bit-vectors, z3 5.1 incremental with z3 4.8.12 / one-shot fallback); counterexamples and solver-chosen samples replayed natively with go test -overlay"
 NOTE = "trusted: go/ssa v0.29.0, the gosym interpreter and its (randomly self-tested) term simplifier, the SMT-LIB printer, z3; stubs, assumptions and bounds are listed per run in the evidence file; a pass means 'holds for all values within the stated bounds', nothing outside them"
 CHECKS = {
+ "C14": ("bounded symbolic execution of keyban.OnRequest -> Swarm.Contains/Notify -> State -> crdt.Durable (Add/Del/Has/Merge/fetch/store) over stubbed storage engines: every sequence of ban / unban / use on broker A and delivery / use on a second durable broker B, symbolic clock steps", "3 C14"),
  "C16": ("bounded symbolic execution of all 14 EncodeTo functions, DecodePacket, decodeHeader, writeHeader, encodeLength against the paho.mqtt.golang packets implementation (also executed symbolically from its SSA) and a transcription of the 3.1.1 remaining-length algorithm: every remaining length < 2^28, every flag/QoS/id value, strings and tuple counts up to the stated bound, payload lengths at every encoding and buffer boundary", "3 C16"),
  "C04": ("bounded symbolic execution of crdt.Volatile/Durable Merge/Add/Del/Has/Get: three update sets with symbolic int64 add/remove times delivered to four replicas in every order, with duplicates, pre-merged groups and relayed deltas; local operations under an arbitrary clock", "3 C04"),
  "C13": ("bounded symbolic execution of Volatile.Merge, Durable.Merge and State.Merge: local state and incoming payload symbolic per key (every order of add/remove times, ties, zeros, missing keys); payloads queued through the gossip sender's pending.Merge(new) rule", "3 C13"),
